@@ -71,8 +71,13 @@ def main(argv):
     keys = ["key%d" % i for i in range(60)]
     lines, metas = [], []
     ncase = 0
+    import logging
+    pm_logger = logging.getLogger("pymemcache")
+    pm_logger.addHandler(logging.NullHandler())
     for use_vpc in (True, False):
         for trial in range(60 if ctx.thorough else 14):
+            # the logging level is configuration too: what the client does must not depend on whether somebody is listening to its debug messages
+            pm_logger.setLevel(logging.DEBUG if trial % 3 == 2 else logging.NOTSET)
             C = Cluster(rng)
             # the configuration version the endpoint reports is a counter of the cluster's life so far: any number, growing with every change
             C.version = [0, 7, 8, 9, 97, 98, 99, 998, 2 ** 31 - 3, 1, 5, 12, 95, 4, 9999][trial % 15] - 1
@@ -167,6 +172,7 @@ def main(argv):
                 advs = ";".join(",".join(hx(("%s:%s" % ((ip if use_vpc else h), p)).encode()) for h, ip, p in nodes) for nodes in hist)
                 lines.append(f"aws.reconf advs={advs}")
                 metas.append(("reconf", {"use_vpc": use_vpc, "history": desc}, sorted(client.hasher.nodes)))
+    pm_logger.setLevel(logging.NOTSET)
     # a node REPLACED BEHIND ITS HOST NAME (the usual ElastiCache node replacement: same name and port, new machine): names are resolved through the
     # fake resolver, which follows the advertised list, so a connection is identified by the machine (IP) it reached.  After reconfigure_nodes()
     # no command may reach the replaced machine any more, its connection must be closed, and the new machine gets the name's keys.
@@ -254,6 +260,13 @@ def main(argv):
                         clock[0] += 2
                         for k in keys:
                             cl.get(k)
+                    if also_dropped == (3,) and not interim:
+                        # the node answers again and a broadcast (which goes to every registered client, out of rotation or not) opens a connection to it
+                        C.refuse = False
+                        try:
+                            cl.flush_all(noreply=False)
+                        except Exception:
+                            pass
                     if interim:
                         C.refuse = False
                         C.version += 1
@@ -275,6 +288,11 @@ def main(argv):
                     contacted = {(str(c.addr[0]), str(c.addr[1])) for c in C.world.conns if c.addr is not None and any(e[0] == "connect" and e[1] == c.id for e in C.world.ledger[nled:])}
                     bad = {a for a in contacted if a not in adv and not a[0].startswith("cfg.")}
                     names = {"%s:%s" % a for a in adv}
+                    still_open = sorted((str(c.addr[0]), str(c.addr[1])) for c in C.world.conns if c.addr is not None and not c.closed
+                                        and (str(c.addr[0]), str(c.addr[1])) not in adv and not str(c.addr[0]).startswith("cfg."))
+                    if still_open:
+                        ctx.violation("a connection to a node that is no longer advertised was left open after a failover episode", dict(case, open_connections=still_open, advertised=sorted(names)),
+                                      tags=["failover-scale-down", "not-closed"])
                     if bad or set(cl.hasher.nodes) != names or set(cl.clients) != names:
                         ctx.violation("a node that is no longer advertised came back into rotation / was contacted after a failover episode",
                                       dict(case, contacted_unadvertised=sorted(bad), rotation=sorted(cl.hasher.nodes), clients=sorted(cl.clients), advertised=sorted(names)),
